@@ -999,6 +999,17 @@ static int rtr_update_spki_table(struct rtr_socket *rtr_socket, struct spki_tabl
 	return RTR_SUCCESS;
 }
 
+/*
+ * @brief The records of a failed update could not be restored: remove everything learned from this
+ * cache from both tables and start over with a Reset Query.
+ */
+static void rtr_purge_records_after_failed_undo(struct rtr_socket *rtr_socket)
+{
+	pfx_table_src_remove(rtr_socket->pfx_table, rtr_socket);
+	spki_table_src_remove(rtr_socket->spki_table, rtr_socket);
+	rtr_socket->request_session_id = true;
+}
+
 void recv_loop_cleanup(void *p)
 {
 	struct recv_loop_cleanup_args *args = p;
@@ -1190,11 +1201,10 @@ static int rtr_sync_receive_and_store_pdus(struct rtr_socket *rtr_socket)
 					for (unsigned int j = 0; j < i && retval == PFX_SUCCESS; j++)
 						retval = rtr_undo_update_pfx_table(rtr_socket, pfx_update_table,
 										   &(ipv4_pdus[j]));
-					if (retval == RTR_ERROR) {
+					if (retval != PFX_SUCCESS) {
 						RTR_DBG1(
 							"Couldn't undo all update operations from failed data synchronisation: Purging all records");
-						pfx_table_src_remove(rtr_socket->pfx_table, rtr_socket);
-						rtr_socket->request_session_id = true;
+						rtr_purge_records_after_failed_undo(rtr_socket);
 					}
 					rtr_change_socket_state(rtr_socket, RTR_ERROR_FATAL);
 					retval = RTR_ERROR;
@@ -1214,11 +1224,10 @@ static int rtr_sync_receive_and_store_pdus(struct rtr_socket *rtr_socket)
 					for (unsigned int j = 0; j < i && retval == PFX_SUCCESS; j++)
 						retval = rtr_undo_update_pfx_table(rtr_socket, pfx_update_table,
 										   &(ipv6_pdus[j]));
-					if (retval == PFX_ERROR) {
+					if (retval != PFX_SUCCESS) {
 						RTR_DBG1(
 							"Couldn't undo all update operations from failed data synchronisation: Purging all records");
-						pfx_table_src_remove(rtr_socket->pfx_table, rtr_socket);
-						rtr_socket->request_session_id = true;
+						rtr_purge_records_after_failed_undo(rtr_socket);
 					}
 					rtr_change_socket_state(rtr_socket, RTR_ERROR_FATAL);
 					retval = RTR_ERROR;
@@ -1245,11 +1254,10 @@ static int rtr_sync_receive_and_store_pdus(struct rtr_socket *rtr_socket)
 						retval = rtr_undo_update_spki_table(rtr_socket, spki_update_table,
 										    &(router_key_pdus[j]));
 					// cppcheck-suppress duplicateExpression
-					if (retval == RTR_ERROR || retval == SPKI_ERROR) {
+					if (retval != SPKI_SUCCESS) {
 						RTR_DBG1(
-							"Couldn't undo all update operations from failed data synchronisation: Purging all key entries");
-						spki_table_src_remove(spki_update_table, rtr_socket);
-						rtr_socket->request_session_id = true;
+							"Couldn't undo all update operations from failed data synchronisation: Purging all records");
+						rtr_purge_records_after_failed_undo(rtr_socket);
 					}
 					rtr_change_socket_state(rtr_socket, RTR_ERROR_FATAL);
 					retval = RTR_ERROR;
